@@ -225,4 +225,41 @@ def envOK (name : Option Bytes) (hasArg : Bool) (pf : PF) (nanConv : Nat) (obs :
   let (e, err) := envRef name hasArg pf
   obs == (e.map (shape nanConv), err)
 
+
+/-- reference for `NewTracerProvider`'s sampler: the LAST non-nil `WithSampler` option; without one the sampler the
+environment names; without that `ParentBased(AlwaysSample())`. An environment error is reported exactly when the
+environment is set and not understood. -/
+def providerRef (env : Option Sampler × EnvErr) (opts : List (Option Sampler)) : Sampler × Bool :=
+  let pick : Option Sampler := match opts.reverse.find? (·.isSome) with
+    | some (some s) => some s
+    | _ => env.1
+  (match pick with
+   | some s => s
+   | none => .parentBased .always .always .never .always .never,
+   env.2 != .ok)
+
+def providerOK (env : Option Sampler × EnvErr) (opts : List (Option Sampler)) (obs : Sampler × Bool) : Bool :=
+  obs == providerRef env opts
+
+/-- the value a reader finds under key `k` when the attributes `l` were set in this order: the LAST one -/
+def lastValue (l : List (Nat × Int)) (k : Nat) : Option Int := (l.reverse.find? (·.1 == k)).map (·.2)
+
+/-- oracle of a `sparams` line, on the observation alone: the sampler saw exactly the start configuration (raw kind);
+a recording span has the validated kind, distinct keys, and under every key the last value set — start options after
+the sampler's attributes; a non-recording span shows nothing -/
+def startParamsOK (kind : Nat) (name : Bytes) (cfgAttrs : List (Nat × Int)) (nLinks dec : Nat)
+    (samplerAttrs : List (Nat × Int)) (seenName : Bytes) (seenKind : Nat) (seenAttrs : List (Nat × Int))
+    (seenLinks : Nat) (recording : Bool) (spanKind : Nat) (attrs : List (Nat × Int)) : Bool :=
+  let all := samplerAttrs ++ cfgAttrs
+  seenName == name && seenKind == kind && seenAttrs == cfgAttrs && seenLinks == nLinks &&
+  recording == (dec == 1 || dec == 2) &&
+  (if recording then
+     spanKind == (if kind == 0 || kind > 5 then 1 else kind) &&
+     decide (attrs.map (·.1)).Nodup &&
+     all.all (fun a => (attrs.find? (·.1 == a.1)).map (·.2) == lastValue all a.1) &&
+     attrs.all (fun a => all.any (·.1 == a.1)) &&
+     -- order: by first occurrence
+     attrs.map (·.1) == (all.map (·.1)).eraseDups
+   else attrs.isEmpty)
+
 end Otel.C09.Spec
